@@ -55,7 +55,7 @@ def cases(rng, tier):
         s = sink.sink(rng, wg_overrides=True)
         o = rng.choice(structcases.ALL_OPTS)
         out.append({"wgsl": s["wgsl"], "family": "sink", "opts": dict(o)})
-    for c in structcases.cases(rng, "quick", nbase=14 * scale, square_mats_only=False):
+    for c in structcases.cases(rng, "quick", nbase=14 * scale, square_mats_only=False, huge_arrays=True):
         out.append({"wgsl": c["wgsl"], "family": "structs", "opts": c["opts"]})
     # structs playing several roles at once (entry result + member of a host struct, vertex input + storage element ...)
     roles, nested_result = [], 0
@@ -77,6 +77,17 @@ def cases(rng, tier):
                      ("targets", ""), ("module", ""), ("Device", ""), ("SOURCE_", ""), ("Entries", "override k: f32 = 1.0;")):
         out.append({"wgsl": "const %s: u32 = 7u;\n%s\n@fragment fn fs() -> @location(0) vec4<f32> { return vec4<f32>(0.0); }\n" % (nm, rest),
                     "family": "binder_names", "opts": {}})
+    # host-shareable structs around and above 64 KiB under the plain-data derives (whatever a struct derives, it derives
+    # everything those derives need); lengths bytemuck implements Pod for
+    for decl, o in (("array<vec4<f32>, 4096>", {"bm_host": True}), ("array<mat4x4<f32>, 2048>", {"bm_host": True}),
+                    ("array<mat4x4<f32>, 4096>", {"bm_host": True, "bm_vertex": True}), ("array<vec4<u32>, 4096>", {"bm_host": True, "serde": False, "mv": "Glam"})):
+        out.append({"wgsl": "struct BigTable { rows: %s }\n@group(0) @binding(0) var<storage, read> big_table: BigTable;\n"
+                            "@compute @workgroup_size(1) fn main() { _ = big_table.rows[0]; }\n" % decl, "family": "large_host_struct", "opts": dict(o)})
+    # bindings of ONE group whose names are equal up to the naming convention: different variables, different fields
+    for names_ in (("baseColor", "base_color"), ("shadowMap", "shadow_map", "ShadowMap"), ("uTime", "u_time", "utime")):
+        w = "".join("@group(0) @binding(%d) var<uniform> %s: vec4<f32>;\n" % (k, n_) for k, n_ in enumerate(names_))
+        w += "@fragment fn fs_main() -> @location(0) vec4<f32> { return %s; }\n" % " + ".join(names_)
+        out.append({"wgsl": w, "family": "names_equal_up_to_convention", "opts": {}})
     for c in out:
         if c["opts"].get("mv") == "Nalgebra" and c["opts"].get("encase"):
             c["opts"]["encase"] = False      # encase's nalgebra impls need the real nalgebra crate (not available offline)
